@@ -1654,6 +1654,8 @@ def _reduce_blockwise(
     # for pure numpy grouping, we just use npg directly and avoid "finalizing"
     # (agg.finalize = None). We still need to do the reindexing step in finalize
     # so that everything matches the dask version.
+    # (on a copy: `agg` is shared by every task of a graph and must not change under them)
+    agg = copy.copy(agg)
     agg.finalize = None
 
     assert agg.finalize_kwargs is not None
